@@ -39,6 +39,9 @@ type MSpec struct {
 	Not  bool   `json:"not,omitempty"`
 	// And: with Not, a second matcher inside the negated set: not{ this AND And }
 	And  *MSpec `json:"and,omitempty"`
+	// Or: with Not, a second matcher set inside the not: not{ {this [AND And]} OR {Or} } (JSON
+	// configurations can express it, the Caddyfile cannot)
+	Or *MSpec `json:"or,omitempty"`
 	Real string `json:"real,omitempty"` // "tls", "proxy_protocol": a shipped matcher instead
 
 	m *worlds.SpecMatcher
@@ -136,7 +139,11 @@ func (b *Builder) Matcher(ms *MSpec) layer4.ConnMatcher {
 		if ms.And != nil {
 			inner = append(inner, b.Matcher(ms.And))
 		}
-		m = &layer4.MatchNot{MatcherSets: []layer4.MatcherSet{inner}}
+		sets := []layer4.MatcherSet{inner}
+		if ms.Or != nil {
+			sets = append(sets, layer4.MatcherSet{b.Matcher(ms.Or)})
+		}
+		m = &layer4.MatchNot{MatcherSets: sets}
 	}
 	return m
 }
